@@ -136,8 +136,11 @@ def discharge(ob, tier="quick", default_timeout=60):
     if ob.optional and tier != "thorough":
         ob.status, ob.output = "undecided", "optional obligation: attempted in the thorough tier only"
         return ob
-    os.makedirs(os.path.join(BUILD, "smt"), exist_ok=True)
-    path = os.path.join(BUILD, "smt", re.sub(r"[^A-Za-z0-9_.-]", "_", ob.name) + ".smt2")
+    # scratch copies of the repository (audit / seed matrix) get their own directory, so that concurrent runs never share a query file
+    from .extract import SCRATCH_TAG
+    sub = "smt" + SCRATCH_TAG
+    os.makedirs(os.path.join(BUILD, sub), exist_ok=True)
+    path = os.path.join(BUILD, sub, re.sub(r"[^A-Za-z0-9_.-]", "_", ob.name) + ".smt2")
     with open(path, "w") as f:
         f.write(ob.script())
     ob.file = path
